@@ -73,8 +73,15 @@ decreasing_by
       unfold stripLine; exact (List.dropWhile_sublist _).length_le
     omega
 
+/-- The printer puts one blank between a line comment's marker and its text when there is none;
+blanks there are layout, not content. -/
+def canonLineText (marker : Nat) (text : String) : String :=
+  String.ofList (text.toList.take marker ++ (text.toList.drop marker).dropWhile (· == ' '))
+
 def canonComment : Item → Item
   | .comment 'B' text => .comment 'B' (String.ofList (canonBlockAux text.toList))
+  | .comment 'L' text => .comment 'L' (canonLineText 2 text)
+  | .comment 'D' text => .comment 'D' (canonLineText 3 text)
   | x => x
 
 /-- the first non-comment item -/
